@@ -158,3 +158,29 @@ proof! {
         }
     }
 }
+
+proof! {
+    //@ props=C04,C03 tier=quick bounds=V3(FieldRemoved("b")):after-one-record-the-removed-field-name-is-registered-in-the-stream's-string-table-under-id-1 cap=900
+    fn c04_removed_name_is_deduplicated() unwind(6) {
+        use desert_core::serializer::StoreStringResult;
+        use desert_core::{BinarySerializer, SerializationContext};
+        let v = V3 { a: sym::u8_(), c: sym::u8_() };
+        let mut ctx = SerializationContext::new(Vec::new());
+        match v.serialize(&mut ctx) {
+            Ok(()) => {}
+            Err(e) => { std::mem::forget(e); assert!(false); }
+        }
+        // the header wrote the name as a *deduplicated* string: a later occurrence in the same
+        // stream is a back-reference to id 1
+        match ctx.state_mut().store_string("b".to_string()) {
+            StoreStringResult::StringAlreadyStored { id } => assert!(id.0 == 1, "removed field name registered under a wrong id"),
+            StoreStringResult::StringIsNew { new_id, value } => {
+                let _ = new_id;
+                std::mem::forget(value);
+                assert!(false, "the removed field name in the header was not written as a deduplicated string");
+            }
+        }
+        cover!(true);
+        std::mem::forget(ctx);
+    }
+}
